@@ -892,6 +892,26 @@ fn gen_c11(case_seed: u64, case: u64, tier: Tier) -> Plan {
 	steps.push(Step::Probe);
 	let mut p = base_plan("C11", case_seed, opts, keys, steps);
 	p.gate_tasks = true;
+	// a flush (with its value-log clean-up) committing in the middle of a compaction, and
+	// a compaction in the middle of a flush: the files the other side still points into
+	// must survive
+	for label in ["compact.post_snapshots", "compact.pre_manifest", "compact.pre_cleanup", "flush.pre_manifest"] {
+		if rng.chance(1, 3) {
+			let a = 3u8;
+			let mut ws = Vec::new();
+			for _ in 0..rng.range(1, 3) {
+				ws.push(Step::Begin { a, mode: ModeS::ReadWrite });
+				for _ in 0..rng.range(1, 2) {
+					let len = (*rng.pick(&sizes)).min(1500);
+					ws.push(Step::Set { a, k: rng.below(nkeys as u64) as u16, v: tags.next(len), ts: None });
+				}
+				ws.push(Step::Commit { a, sync: false });
+			}
+			ws.push(if label.starts_with("compact") { Step::FlushAll } else { Step::CompactRound });
+			ws.push(Step::Probe);
+			p.windows.push(Window { label: label.into(), nth: rng.range(1, 3) as u32, steps: ws });
+		}
+	}
 	p
 }
 
@@ -1042,6 +1062,29 @@ fn gen_c17(case_seed: u64, _case: u64, tier: Tier) -> Plan {
 			18 => steps.push(if rng.chance(1, 2) { Step::WakeFlushTask } else { Step::WakeLevelTask }),
 			_ => steps.push(Step::Probe),
 		}
+	}
+	if rng.chance(1, 3) {
+		// injected WAL / apply failures: commit-log appends, syncs and segment creation (the
+		// rotation inside apply), table creation (flush). Every commit must still return and
+		// close() must still return; nothing may overflow or panic.
+		for _ in 0..rng.range(1, 3) {
+			let at = rng.below(steps.len() as u64) as usize;
+			let (kind, class) = *rng.pick(&[
+				(FaultKind::Write, "wal"),
+				(FaultKind::Write, "wal"),
+				(FaultKind::Write, "wal"),
+				(FaultKind::Create, "wal"),
+				(FaultKind::Fsync, "wal"),
+				(FaultKind::Create, "other"),
+				(FaultKind::Write, "other"),
+				(FaultKind::Write, "manifest"),
+			]);
+			let action = *rng.pick(&[FaultAction::Eio, FaultAction::Enospc, FaultAction::Emfile]);
+			let spec = FaultSpec { at: FaultAt::Class { kind, class: class.into(), nth: rng.range(1, 4) as u32 }, action, persistent: rng.chance(1, 2), spent: false };
+			steps.insert(at, Step::Faults { specs: vec![spec] });
+		}
+		// reads are not C17's subject; a failed append has known read-side effects (F5)
+		steps.retain(|s| !matches!(s, Step::Probe | Step::Get { .. }));
 	}
 	let mut p = base_plan("C17", case_seed, opts, keys, steps);
 	p.async_yields = rng.chance(2, 3);
